@@ -18,6 +18,9 @@
        WExecStart i   the executor's Run is entered (visible RunStart; n.cmd exists from here on)
        WDryExec i     dry run: execNode returns nil at once (:281-286)
        WExecRefused i after the deadline the executor refuses to start (expired context); WExecStart needs the deadline not passed
+       WCreateFail i  the command of this attempt cannot be created (node.setupExec fails: the step's first cfails
+                      attempts): the attempt is over, failed, without a command having been started (Node.Execute returns
+                      before cmd.Run) - it counts as an attempt (att, outs) but is no WExecStart
        WExecEnd i ok  Run returns (environment chooses ok)
        WAfter i early the error switch (:161-193), doneCount (:195), repeat test (:198), done channel (:206);
                       early = the status read at :162 preceded a Signal that has flipped the node since
@@ -35,7 +38,8 @@
      Timeout          the DAG deadline passes (isTimeout becomes true, contexts expire)
      after wg.Wait() (:228-258)
        HBegin         handlers chosen from Status(g)
-       HStart h / HEnd h ok / HSkip h (dry) / HFinish      (the handlers run with the context of the whole run, not
+       HStart h / HEnd h ok / HSkip h (dry) / HSetupFail h (node.setup of the handler fails: marked failed, not run, the
+       next handler follows) / HFinish      (the handlers run with the context of the whole run, not
                       with the steps' deadline: fix 246fa0b, F5d)
 
    Idle polling iterations change nothing and carry no label. *)
@@ -46,8 +50,11 @@ Inductive nstatus := NNone | NRunning | NError | NCancel | NSuccess | NSkipped.
 Inductive wphase :=
 | PIdle | PSetup | PStarting | PExec | PEnded (ok : bool) | PRetryWait | PRepeatWait | PPost | PGone.
 
-Record stepdef := { deps : list nat; cof : bool; cos : bool; rlimit : nat; pre : bool; sfail : bool; repeat : bool }.
-(* pre: the outcome the step's preconditions will have; sfail: node.setup will fail (I/O) *)
+Record stepdef := { deps : list nat; cof : bool; cos : bool; rlimit : nat; pre : bool; sfail : bool; repeat : bool;
+                    cfails : nat }.
+(* pre: the outcome the step's preconditions will have; sfail: node.setup will fail (I/O); cfails: the creation of the
+   step's command (node.setupExec: executor.NewExecutor) fails in its first cfails attempts - the attempt ends in error
+   without a command having been started (Node.Execute returns before cmd.Run) *)
 
 Inductive handler := HSuccess | HFailure | HCancel | HExit.
 Inductive ostatus := ONone | ORunning | OError | OCancel | OSuccess.     (* Scheduler.Status *)
@@ -60,7 +67,8 @@ Record cfg := {
   donech : bool;       (* Schedule called with done != nil (the agent always does: agent.go:190,368) *)
   sigs : nat;          (* number of Signal calls the environment may make *)
   tmo : bool;          (* a DAG timeout is configured *)
-  hon : handler -> bool }.
+  hon : handler -> bool;
+  hsfail : handler -> bool }.   (* node.setup of the handler's node will fail (I/O): scheduler.go runHandlerNode *)
 
 (* outs: ghost, outcomes of the attempts so far, latest first *)
 Record node := { st : nstatus; rc : nat; dc : nat; att : nat; ph : wphase; stale : nat; outs : list bool }.
@@ -82,10 +90,11 @@ Record state := {
 Inductive label :=
 | LMark (i d : nat) | LCommit (i : nat) | LLaunch (i : nat) | LSkipPre (i : nat) | LExit
 | WSetupFail (i : nat) | WTest (i : nat) | WSkipExec (i : nat) | WExecStart (i : nat) | WDryExec (i : nat)
-| WExecRefused (i : nat) | WExecEnd (i : nat) (ok : bool) | WAfter (i : nat) (early : bool)
+| WExecRefused (i : nat) | WCreateFail (i : nat) | WExecEnd (i : nat) (ok : bool) | WAfter (i : nat) (early : bool)
 | WRetryWake (i : nat) | WRepeatWake (i : nat) | WFinish (i : nat)
 | SigFlag | SigNode (k : bool) | Timeout
-| HBegin | HStart (h : handler) | HEnd (h : handler) (ok : bool) | HSkip (h : handler) | HFinish.
+| HBegin | HStart (h : handler) | HEnd (h : handler) (ok : bool) | HSkip (h : handler) | HSetupFail (h : handler)
+| HFinish.
 
 Definition nstatus_eqb (a b : nstatus) : bool :=
   match a, b with
@@ -201,6 +210,8 @@ Definition after (s : state) (i : nat) (ok early : bool) : state :=
     end.
 
 Definition setup_fails (i : nat) : bool := sfail (steps c i) && negb (dry c).
+(* the command of the node's current attempt cannot be created (attempt number = retry count + 1) *)
+Definition create_fails (s : state) (i : nat) : bool := rc (nd s i) <? cfails (steps c i).
 
 Definition step (s : state) (l : label) : option state :=
   match l with
@@ -241,7 +252,7 @@ Definition step (s : state) (l : label) : option state :=
       | _ => None end
   | WExecStart i =>
       match ph (nd s i) with
-      | PStarting => if (i <? n) && negb (dry c) && negb (timedout s)
+      | PStarting => if (i <? n) && negb (dry c) && negb (timedout s) && negb (create_fails s i)
                      then Some (set_nd s i {| st := st (nd s i); rc := rc (nd s i); dc := dc (nd s i);
                                               att := S (att (nd s i)); ph := PExec; stale := stale (nd s i);
                                               outs := outs (nd s i) |}) else None
@@ -254,6 +265,13 @@ Definition step (s : state) (l : label) : option state :=
       match ph (nd s i) with
       | PStarting => if (i <? n) && negb (dry c) && timedout s
                      then Some (set_nd s i (with_ph (nd s i) (PEnded false))) else None
+      | _ => None end
+  | WCreateFail i =>
+      match ph (nd s i) with
+      | PStarting => if (i <? n) && negb (dry c) && create_fails s i
+                     then Some (set_nd s i {| st := st (nd s i); rc := rc (nd s i); dc := dc (nd s i);
+                                              att := S (att (nd s i)); ph := PEnded false; stale := stale (nd s i);
+                                              outs := false :: outs (nd s i) |}) else None
       | _ => None end
   | WExecEnd i ok =>
       match ph (nd s i) with
@@ -328,7 +346,7 @@ Definition step (s : state) (l : label) : option state :=
   | HStart h =>
       match pc s with
       | LHandlers (h' :: t) false =>
-          if handler_eqb h h' && negb (dry c)
+          if handler_eqb h h' && negb (dry c) && negb (hsfail c h)
           then Some (set_pc (set_hst s h {| hs := NRunning; hatt := S (hatt (hst s h)) |}) (LHandlers (h' :: t) true))
           else None
       | _ => None end
@@ -345,6 +363,13 @@ Definition step (s : state) (l : label) : option state :=
       | LHandlers (h' :: t) false =>
           if handler_eqb h h' && dry c
           then Some (set_pc (set_hst s h {| hs := NSuccess; hatt := hatt (hst s h) |}) (LHandlers t false))
+          else None
+      | _ => None end
+  | HSetupFail h =>
+      match pc s with
+      | LHandlers (h' :: t) false =>
+          if handler_eqb h h' && negb (dry c) && hsfail c h
+          then Some (set_pc (set_hst s h {| hs := NError; hatt := hatt (hst s h) |}) (LHandlers t false))
           else None
       | _ => None end
   | HFinish =>
@@ -372,13 +397,18 @@ End WithCfg.
 
 (* cfg from a list of steps (harness cases) *)
 Definition dflt_step : stepdef :=
-  {| deps := []; cof := false; cos := false; rlimit := 0; pre := true; sfail := false; repeat := false |}.
+  {| deps := []; cof := false; cos := false; rlimit := 0; pre := true; sfail := false; repeat := false; cfails := 0 |}.
 Definition mkcfg (l : list stepdef) (k : nat) (isdry isdone : bool) : cfg :=
   {| nsteps := length l; steps := fun i => nth i l dflt_step; maxActive := k; dry := isdry; donech := isdone;
-     sigs := 0; tmo := false; hon := fun _ => false |}.
+     sigs := 0; tmo := false; hon := fun _ => false; hsfail := fun _ => false |}.
 
 (* full form: Signal budget, timeout, configured handlers *)
 Definition mkcfgx (l : list stepdef) (k : nat) (isdry isdone : bool) (nsig : nat) (hastmo : bool)
   (h : handler -> bool) : cfg :=
   {| nsteps := length l; steps := fun i => nth i l dflt_step; maxActive := k; dry := isdry; donech := isdone;
-     sigs := nsig; tmo := hastmo; hon := h |}.
+     sigs := nsig; tmo := hastmo; hon := h; hsfail := fun _ => false |}.
+(* ... and handlers whose set-up fails *)
+Definition mkcfgy (l : list stepdef) (k : nat) (isdry isdone : bool) (nsig : nat) (hastmo : bool)
+  (h hf : handler -> bool) : cfg :=
+  {| nsteps := length l; steps := fun i => nth i l dflt_step; maxActive := k; dry := isdry; donech := isdone;
+     sigs := nsig; tmo := hastmo; hon := h; hsfail := hf |}.
